@@ -67,14 +67,24 @@ let f64 = mk_ops (fun x -> x)
    seeds estimates how much binary32 rounding (libm differences, fused multiply-add) can move it *)
 let f32_noisy (seed : int) : float ops =
   let noise_state = ref (seed * 7919 + 1) in
-  mk_ops (fun x ->
-    let y = r32 x in
+  let bump y =
     noise_state := (!noise_state * 1103515245 + 12345) land 0x3fffffff;
-    if Float.is_finite y && y <> 0.0 && y <> x then        (* only results that were actually rounded *)
+    if Float.is_finite y && y <> 0.0 then
       (if (!noise_state lsr 13) land 1 = 0
        then Int32.float_of_bits (Int32.add (Int32.bits_of_float y) 1l)
        else Int32.float_of_bits (Int32.sub (Int32.bits_of_float y) 1l))
-    else y)
+    else y in
+  let base = mk_ops (fun x ->
+    let y = r32 x in
+    if y <> x then bump y else (noise_state := (!noise_state * 1103515245 + 12345) land 0x3fffffff; y)) in   (* only results that were actually rounded *)
+  (* ... except for the kernels the implementation does not round correctly (Eigen's vectorised pow gives
+     pow(-5.5, 4) = 915.0627 where the exact 915.0625 is representable): those are always moved *)
+  let plain = mk_ops r32 in
+  let inexact_un = [OP_SIN; OP_COS; OP_TAN; OP_ASIN; OP_ACOS; OP_ATAN; OP_EXP; OP_LOG] in
+  let inexact_bin = [OP_POW; OP_NTH_ROOT; OP_ATAN2] in
+  { base with
+    o_un = (fun op a -> if List.mem op inexact_un then bump (plain.o_un op a) else base.o_un op a);
+    o_bin = (fun op x y -> if List.mem op inexact_bin then bump (plain.o_bin op x y) else base.o_bin op x y) }
 
 (* sign-of-zero probe: binary32 in which every zero result is +0 (Eigen's AVX-512 negation is 0 - a,
    so -(+0) is +0 there and -0 elsewhere; atan2(+-0, negative) is +-pi) *)
